@@ -1112,35 +1112,24 @@ def stream_lean(ctx, S, rng, ncases, cov):
 
 # ------------------------------------------------------------------------------------------------
 # (v) sequential test of unbiasedness ------------------------------------------------------------------
-#
-# Statistic.  Column c gives X_c = estimator[t, c]; the routine returns the mean of the N = iterations * bs columns it drew.
-# The test looks at the deviation of the SUM, dev = |mean - np.diag(A, k)[t]| * N = |S_N - N * diag_k[t]|, per component t.
-# PROVED in Lean for the modelled estimator under the i.i.d. probe law (Properties/C17.lean; Lemmas/RngTail.lean, RngHoeffding.lean):
-#   C17_variance_gaussian / _sign_gaussian / _rademacher   Var X_c = V = rho^2 (+ 2 a_s^2 for normal probes), rho^2 = sum_{q != s} A[r,q]^2
-#   C17_columns_independent, C17_variance_sum_iid          the columns of a block are independent; E (S_N - N d)^2 = N V
-#   C17_tail_chebyshev_sum (bs := N)                       P(|S_N - N d| >= thr) <= N V / thr^2                 every probe law, FIXED N
-#   C17_tail_hoeffding_sign / _threshold (bs := N)         P(|S_N - N d| >= thr) <= 2 exp(-thr^2 / (2 N rho^2))  Rademacher (sign) probes, FIXED N
-#   C17_tail_chebyshev_mean                                P(|mean - d| >= delta) <= V / (N delta^2)
-# Thresholds (unchanged since round 2; a right check is never loosened):
-#     thr(x) = sigma sqrt(2 Ncap x) + c x,   sigma^2 = V,   c = 0 (Rademacher) | |a_s| + sqrt(a_s^2 + rho^2) (normal).
-# What Lean certifies about them, for every FIXED number N <= Ncap of independent columns:
-#   Rademacher   thr(x) >= sqrt(2 N rho^2 x), hence P(|S_N - N d| >= thr(x)) <= 2 exp(-x)  - exactly the level the procedure states
-#                (C17_tail_hoeffding_threshold; Hoeffding's lemma + independence, no normal approximation);
-#   normal       only the Chebyshev level Ncap V / thr(x)^2 (about 1/(2x)); the sub-gamma level 2 exp(-x) (Laurent-Massart bound for
-#                the log-mgf of a_s (g_s^2 - 1) + rho g_s h) is a CONTRACT.
-# CONTRACTS for both probe kinds (not Lean theorems): the maximal form of the bounds, valid for the routine's data-dependent
-# `err(state) > tol` stopping rule (Ville's inequality for the exponential supermartingale); independence of the blocks drawn under
-# different keys (in the theorems several iterations are ONE block of N = iterations*bs columns); MT19937 after seed(key) delivering
-# i.i.d. N(0,1) at all.  The proved level of every threshold actually used is COMPUTED and recorded (`lean_certified_*`,
-# `chebyshev_*`, `hoeffding_*` in the evidence; `ztest_chebyshev_false_alarm_max`).
-# Rounding: float64 sums of <= 1e5 terms, relative error < 1e-11, covered by SLACK.
-#
-# Procedure.  Stage 1: every component of every case, thr(X1).  A component beyond it is re-tested K times with FRESH keys and
-# REP_FACTOR times the cap; VIOLATION iff it exceeds thr(X2) in ALL K replications.  Under the contracts above
-#     P(any VIOLATION on an unbiased estimator) <= C * 2 exp(-X1) * (2 exp(-X2))^K <= ALPHA   (C components, K chosen accordingly);
-# under the PROVED inequalities alone (fixed N, independent replications)
-#     P(any VIOLATION) <= sum_components level1 * level2^K,  level = 2 exp(-x) (Rademacher) | Ncap V / thr(x)^2 <= 1/(2x) (normal)
-# (`lean_certified_stream_false_alarm`).
+# Statistic per component t: dev = |mean - np.diag(A, k)[t]| * N = |S_N - N d|, N = iterations * bs columns drawn, against
+#     thr(x) = sigma sqrt(2 Ncap x) + c x,  sigma^2 = V,  c = 0 (Rademacher) | |a_s| + sqrt(a_s^2 + rho^2) (normal)   [unchanged since round 2]
+# with V = rho^2 (+ 2 a_s^2 for normal probes), rho^2 = sum_{q != s} A[r,q]^2 (PROVED: C17_variance_gaussian / _sign_gaussian / _rademacher).
+# PROVED in Lean (Properties/C17.lean) for every FIXED number N <= Ncap of independent probe columns (bs := N in the theorems):
+#   C17_tail_chebyshev_sum     P(|S_N - N d| >= thr) <= N V / thr^2                  every probe law (with C17_variance_sum_iid,
+#                              C17_columns_independent); C17_tail_chebyshev_mean is the same statement for the returned mean
+#   C17_tail_hoeffding_sign    P(|S_N - N d| >= thr) <= 2 exp(-thr^2 / (2 N rho^2))   Rademacher probes as coded; in threshold form
+#   C17_tail_hoeffding_threshold   thr >= sqrt(2 N rho^2 x)  =>  P <= 2 exp(-x): exactly the level claimed for thr(x), Rademacher
+# CONTRACTS (textbook inequalities, NOT Lean theorems): the sub-gamma level 2 exp(-x) of thr(x) for NORMAL probes (Laurent-Massart);
+# for both probe kinds the maximal form that covers the routine's data-dependent `err(state) > tol` stopping rule (Ville);
+# independence of blocks drawn under different keys (the theorems treat all iterations as ONE block of N columns); MT19937 after
+# seed(key) delivering i.i.d. N(0,1).  The stated ALPHA rests on them.  The thresholds are NOT widened to what is proved; instead the
+# proved level of every threshold actually used is computed and recorded (evidence streams.ztest: lean_certified_*, chebyshev_*,
+# hoeffding_*; ztest_chebyshev_false_alarm_max).  Rounding (float64 sums of <= 1e5 terms, rel. error < 1e-11) is covered by SLACK.
+# Procedure: stage 1 tests every component against thr(X1); a component beyond it is re-tested K times with FRESH keys and
+# REP_FACTOR times the cap and is a VIOLATION iff it exceeds thr(X2) in ALL K.  Under the contracts
+#     P(any VIOLATION on an unbiased estimator) <= C * 2 exp(-X1) * (2 exp(-X2))^K <= ALPHA  (C components; K chosen accordingly);
+# from the proved inequalities alone: <= sum_components level1 * level2^K  (`lean_certified_stream_false_alarm`).
 Z_X1 = 6.0
 Z_X2 = 8.0
 Z_REP_FACTOR = 4
